@@ -144,4 +144,25 @@ PROPS.update({
     },
 })
 
+PROPS.update({
+    "C14": {
+        "title": "Streaming KZG",
+        "rule": "(time-vs-space) seeded degrees 0..256 of all shapes, key sizes >= degree, MSM buffers {1,2,3,7,64,2^20}, 1..8 distinct points: commitment, evaluation, proof of the space prover == time prover == truth; multi-point proof == naive commitment to the quotient by the vanishing polynomial, remainder == naive remainder; verifier (built from either key) accepts the true values and not value+1. (folding-iterators) ALL 130 x 8 cells (length 1..130) x (0..7 challenges): FoldedPolynomialStream values and len() and FoldedPolynomialTree per-level sequences and depth == naive even/odd folding with zero padding. (folding-commit-open) the folded stream handed to the space committer / prover == time prover on the explicitly folded polynomial; commit_folding == per-level time commitments; open_folding proof == sum eta_i * commitment(quotient_i), remainders == naive remainders." + DIST,
+        "required_classes": ["commit-time-equals-space", "open-time-equals-space", "multi-point-time-equals-space", "space-proof-verifies", "folded-stream", "folded-tree", "folded-stream-commit", "commit-folding", "open-folding"],
+        "technique": "runtime monitoring: differential oracle (space vs time prover) + naive reference model of folding and polynomial division",
+        "level_text": "Differential and reference-model monitoring over the index-arithmetic-heavy streaming code; the length x depth grid of the folding iterators is enumerated completely in every run.",
+        "design_ref": "5 (C14)",
+        "assumptions": TRUST,
+    },
+    "C15": {
+        "title": "PST13 parameters",
+        "rule": "Grid cells (num_vars, max_degree): quick [1,5]^2 plus three cells with max degree 6, thorough the complete [1,6]^2 grid (exhaustive for the combinatorial part), random supported_degree <= max_degree per visit. Per cell: published key set == set of all exponent vectors of total degree <= D (count C(n+D,D), no missing / extra / duplicate); e(G[m*x_i],H) == e(G[m],beta_i H) for every (m,i) with deg(m*x_i) <= D (randomised batching per variable, per-pair fallback); trimmed key == monomials of degree <= supported with identical elements; dense, sparse, top-degree-only and single-monomial mixed polynomials (with and without hiding) commit, open and verify, and value+1 is not accepted." + DIST,
+        "required_classes": ["monomial-set", "trapdoor-consistency", "trim-degree-filter", "mixed-monomial-opens", "mixed-monomial-binding"],
+        "technique": "runtime monitoring: structural invariant of the SRS (set equality + pairing identities) + end-to-end oracle on mixed-monomial workloads",
+        "level_text": "The multiset enumeration behind the parameters is checked against an independent enumeration on the whole small grid, and the quotient decomposition is exercised on genuinely multivariate polynomials the suite never generates.",
+        "design_ref": "5 (C15)",
+        "assumptions": TRUST,
+    },
+})
+
 ALL_IDS = ["C%02d" % i for i in range(1, 20)]
